@@ -227,7 +227,16 @@ func (r *Run) Violate(sub string, c interface{}, f *Finding, rerun func() *Findi
 	var reruns []string
 	if rerun != nil {
 		for i := 0; i < 5; i++ {
-			g := rerun()
+			var g *Finding
+			func() {
+				// a re-run that panics must not take the check down (exit 2) after a violation was found
+				defer func() {
+					if p := recover(); p != nil {
+						g = F("rerun-panicked", "%v", p)
+					}
+				}()
+				g = rerun()
+			}()
 			switch {
 			case g == nil:
 				reruns = append(reruns, "no-violation")
